@@ -226,10 +226,46 @@ func (fe *analyticFieldEngine) applyCall(s *Stream, row map[string]any, c types.
 	if err != nil || args == nil {
 		args = []any{}
 	}
+	// parseFunctionArgs hands an unresolved bare word through as its own text (that is
+	// how true/false literals arrive). A column that is simply absent from this row
+	// must reach the state machine as NULL, not as the column's name.
+	if len(args) == len(c.Args) {
+		for i, raw := range c.Args {
+			if isBareColumnRef(raw) {
+				if _, ok := lookupRowField(row, strings.TrimSpace(raw)); !ok {
+					args[i] = nil
+				}
+			}
+		}
+	}
 	if hasStarArg(c.Args) {
 		args = expandStarArgs(c.Args, row, args)
 	}
 	return state.Apply(args)
+}
+
+// isBareColumnRef reports whether an argument fragment is a plain (possibly
+// qualified) column reference: an identifier that is not a boolean/null literal.
+func isBareColumnRef(raw string) bool {
+	a := strings.TrimSpace(raw)
+	if a == "" {
+		return false
+	}
+	switch strings.ToLower(a) {
+	case "true", "false", "null", "nil":
+		return false
+	}
+	for i := 0; i < len(a); i++ {
+		ch := a[i]
+		isLetter := (ch >= 'a' && ch <= 'z') || (ch >= 'A' && ch <= 'Z') || ch == '_'
+		if i == 0 && !isLetter {
+			return false
+		}
+		if !isLetter && !(ch >= '0' && ch <= '9') && ch != '.' {
+			return false
+		}
+	}
+	return true
 }
 
 // evaluateMultiColumn 处理 changed_cols 等多列函数：按 prefix+列名 扇出变化列。
